@@ -381,7 +381,18 @@ mod raw {
                 }
             }
 
+            let mut received = false;
             while self.helper_set != 0 {
+                // recv_timeout() hands over a message that is already waiting
+                // even when the deadline has passed, so a child that writes
+                // continuously would keep us here.  Honor the deadline after
+                // every message.
+                if let (true, Some(deadline)) = (received, deadline) {
+                    if Instant::now() >= deadline {
+                        return Err(io::Error::new(io::ErrorKind::TimedOut, "timeout"));
+                    }
+                }
+                received = true;
                 match self.recv_until(deadline) {
                     Ok((ident, Payload::EOF)) => {
                         self.helper_set &= !(ident as u8);
